@@ -114,6 +114,7 @@ Definition monitor (cs : case) : bool :=
       && forallb (fun f => match f with CFin _ ncb nclose _ _ e =>
                                           Z.leb 0 ncb && Z.leb ncb 1 && Z.eqb nclose ncb
                                           && Bool.eqb e (Z.eqb ncb 1) end) fins
+      && forallb (fun id => negb (Z.eqb id 0)) (add_ids hl)
       && (ids_reused ops hl
           || (forallb (fun c => life_b c (hview c hl) (sent_data c ops)) conns
               && forallb (fun c => negb (must_end c ops) || complete_b c (hview c hl)) conns
